@@ -5,7 +5,7 @@ cd "$(dirname "$0")/.." || exit 2
 MISS=0
 for d in seeded/*/; do
   id=$(basename "$d" | cut -d- -f1)
-  OUT=$(tools/seedtest.sh "$d/patch.diff" "$id" "$TIER" 2>&1 | grep -v conda | cut -c1-260)
+  OUT=$(tools/seedtest.sh "$(pwd)/${d%/}/patch.diff" "$id" "$TIER" 2>&1 | grep -v conda | cut -c1-260)
   echo "$OUT"
   echo "$OUT" | grep -q "exit=1" || MISS=$((MISS+1))
 done
